@@ -176,6 +176,15 @@ func cmdCheck(args []string) int {
 		fr.AllObls = fr.Obls
 		fr.Obls = keep
 	}
+	for _, fr := range frs {
+		for _, o := range fr.Obls {
+			for _, k := range known {
+				if k.Status != "fixed" && k.Property == prop && k.Func == fr.Key && globMatch(k.Obligation, o.Name) {
+					o.NoRetry = true
+				}
+			}
+		}
+	}
 	tmp, _ := os.MkdirTemp("", "govc")
 	defer os.RemoveAll(tmp)
 	failDir := filepath.Join(vd, "replays", prop)
